@@ -56,6 +56,42 @@ func asyncTermProfile() Profile {
 	return p
 }
 
+// abaProfile aims at stale storage acknowledgements: every node writes
+// asynchronously, append threads stall for several terms, leaders come and go.
+func abaProfile() Profile {
+	p := electionProfile()
+	p.PAsync = 1
+	p.MinVoters, p.MaxVoters = 3, 5
+	p.MaxJoiners, p.MaxLearners = 0, 0
+	p.WStallThread = 10
+	p.WCrash = 6
+	p.WPartition = 5
+	p.FaultRate = 0.12
+	p.WConf = 0.2
+	p.WPropose, p.WBatch = 14, 4
+	p.ClientRate = 1.0
+	p.PCheckQuorum = 0.2
+	return p
+}
+
+// shrinkProfile aims at elections on stale configurations: small groups that
+// shrink, slow application of committed changes, removed nodes that keep running.
+func shrinkProfile() Profile {
+	p := confProfile()
+	p.MinVoters, p.MaxVoters = 3, 4
+	p.MaxJoiners = 1
+	p.PAsync = 0.8
+	p.WStallThread = 8
+	p.WSlowNode = 3
+	p.WCrash = 1
+	p.ShortElection = true
+	p.WConf = 6
+	p.FaultRate = 0.1
+	p.RemoveBias = 0.6
+	p.MaxConfChanges = 4
+	return p
+}
+
 func crashProfile() Profile {
 	p := DefaultProfile()
 	p.WCrash = 8
@@ -152,22 +188,30 @@ func SpecFor(id string) PropSpec {
 	}
 	switch id {
 	case "C01":
-		return one(crashProfile(), "C01-crash")
+		s.Profiles = []Profile{withName(crashProfile(), "C01-crash"), withName(shrinkProfile(), "C01-shrink"), withName(d, "C01-default")}
+		s.Shares = []float64{0.5, 0.2, 0.3}
+		return s
 	case "C02":
 		s.Profiles = []Profile{withName(electionProfile(), "C02-election"), withName(asyncTermProfile(), "C02-asyncterm"), withName(d, "C02-default")}
 		s.Shares = []float64{0.5, 0.25, 0.25}
 		s.Mandatory = []string{"simultaneous_candidates"}
 		return s
 	case "C03":
-		return one(electionProfile(), "C03-election")
+		s.Profiles = []Profile{withName(electionProfile(), "C03-election"), withName(abaProfile(), "C03-aba"), withName(d, "C03-default")}
+		s.Shares = []float64{0.45, 0.3, 0.25}
+		return s
 	case "C04":
-		return one(electionProfile(), "C04-election")
+		s.Profiles = []Profile{withName(electionProfile(), "C04-election"), withName(shrinkProfile(), "C04-shrink"), withName(d, "C04-default")}
+		s.Shares = []float64{0.5, 0.25, 0.25}
+		return s
 	case "C05":
 		s.Profiles = []Profile{withName(crashProfile(), "C05-crash"), withName(asyncTermProfile(), "C05-asyncterm"), withName(d, "C05-default")}
 		s.Shares = []float64{0.5, 0.25, 0.25}
 		return s
 	case "C06":
-		return one(confProfile(), "C06-conf")
+		s.Profiles = []Profile{withName(confProfile(), "C06-conf"), withName(snapshotProfile(), "C06-snapshot"), withName(d, "C06-default")}
+		s.Shares = []float64{0.4, 0.35, 0.25}
+		return s
 	case "C07":
 		return one(crashProfile(), "C07-crash")
 	case "C08":
@@ -194,7 +238,9 @@ func SpecFor(id string) PropSpec {
 	case "C17":
 		return one(prevoteProfile(), "C17-prevote")
 	case "C18":
-		return one(snapshotProfile(), "C18-log")
+		s.Profiles = []Profile{withName(snapshotProfile(), "C18-log"), withName(abaProfile(), "C18-aba"), withName(d, "C18-default")}
+		s.Shares = []float64{0.45, 0.3, 0.25}
+		return s
 	case "C19":
 		return one(determinismProfile(), "C19-det")
 	case "C20":
